@@ -24,14 +24,16 @@ import (
 	"github.com/GuanceCloud/platypus/internal/verifsim/dump"
 	"github.com/GuanceCloud/platypus/internal/verifsim/plenv"
 	"github.com/GuanceCloud/platypus/pkg/engine"
+	"github.com/GuanceCloud/platypus/pkg/ast"
 	"github.com/GuanceCloud/platypus/pkg/engine/runtime"
+	"github.com/GuanceCloud/platypus/pkg/engine/runtimev2"
 	"github.com/GuanceCloud/platypus/pkg/errchain"
 	"github.com/GuanceCloud/platypus/pkg/inimpl/guancecloud/input"
 	"github.com/GuanceCloud/platypus/pkg/parser"
 )
 
 type TOp struct {
-	Kind  string `json:"kind"` // parse, run, load (a private set, loaded by the task itself)
+	Kind  string `json:"kind"` // parse, run, load (a private set, loaded by the task itself), runv2 (shared v2 script Src)
 	Src   int    `json:"src,omitempty"`
 	Set   int    `json:"set,omitempty"`
 	Name  string `json:"name,omitempty"`
@@ -42,6 +44,7 @@ type TOp struct {
 type Workload struct {
 	Sets    []map[string]string `json:"sets"` // loaded once in the load phase, shared by all tasks
 	Sources []string            `json:"sources"`
+	V2      []string            `json:"v2,omitempty"` // v2 scripts, loaded once and run by several tasks
 	Points  []corpus.PointT     `json:"points"`
 	Tasks   [][]TOp             `json:"tasks"`
 }
@@ -96,6 +99,10 @@ func (Prop) Generate(seed uint64, tier string) *core.Plan {
 	for i := 0; i < np; i++ {
 		w.Points = append(w.Points, corpus.GenPoint(r))
 	}
+	nv2 := r.Intn(3)
+	for i := 0; i < nv2; i++ {
+		w.V2 = append(w.V2, corpus.GenV2(r, i))
+	}
 	nt := 2 + r.Intn(4)
 	if r.Intn(4) == 0 {
 		nt = 2 + r.Intn(15)
@@ -118,6 +125,8 @@ func (Prop) Generate(seed uint64, tier string) *core.Plan {
 					op.Set, op.Name = fset, fname
 				}
 				ops = append(ops, op)
+			case nv2 > 0 && c < 72 && focus != 2:
+				ops = append(ops, TOp{Kind: "runv2", Src: r.Intn(nv2), Reps: 1 + r.Intn(4)})
 			case c < 90 || focus == 2:
 				ops = append(ops, TOp{Kind: "parse", Src: r.Intn(nsrc), Reps: 1 + r.Intn(3)})
 			default:
@@ -173,6 +182,38 @@ type shared struct {
 	loaded []map[string]*runtime.Script
 	lerrs  []map[string]error
 	base   time.Time
+	v2     []*runtimev2.Script
+	v2out  [][]string // per task id (0 = the harness running solo)
+}
+
+// loadV2 loads the v2 scripts once; their probe function out(x) records per running task.
+func (sh *shared) loadV2(ntasks int) {
+	sh.v2out = make([][]string, ntasks+1)
+	fn := map[string]*runtimev2.Fn{"out": {
+		Call: func(ctx *runtimev2.Task, e *ast.CallExpr) *errchain.PlError {
+			if len(e.Param) != 1 {
+				return nil
+			}
+			if err := runtimev2.RunExpr(ctx, e.Param[0]); err != nil {
+				return err
+			}
+			id := simrt.CurTask()
+			if v, rerr := ctx.Regs.GetRet(); rerr == nil {
+				sh.v2out[id] = append(sh.v2out[id], fmt.Sprintf("%T:%v", v.V, v.V))
+			} else {
+				sh.v2out[id] = append(sh.v2out[id], "noval")
+			}
+			return nil
+		},
+		CallCheck: func(ctx *runtimev2.Task, e *ast.CallExpr) *errchain.PlError { return nil },
+	}}
+	for i, src := range sh.w.V2 {
+		s, err := engine.ParseV2(fmt.Sprintf("v2_%d.p", i), src, fn)
+		if err != nil {
+			s = nil
+		}
+		sh.v2 = append(sh.v2, s)
+	}
 }
 
 func loadStr(set map[string]string, okM map[string]*runtime.Script, errM map[string]error) string {
@@ -211,6 +252,19 @@ func (sh *shared) doOps(ops []TOp) []string {
 				}
 				okM, errM := engine.ParseScript(src, sh.calls, sh.checks)
 				out = append(out, loadStr(sh.w.Sets[op.Set], okM, errM))
+			case "runv2":
+				if op.Src >= len(sh.v2) || sh.v2[op.Src] == nil {
+					out = append(out, "V2 NOT LOADED")
+					continue
+				}
+				id := simrt.CurTask()
+				sh.v2out[id] = nil
+				rerr := sh.v2[op.Src].Run(nil)
+				var e error
+				if rerr != nil {
+					e = rerr
+				}
+				out = append(out, fmt.Sprintf("err=%s out=%v", errStr(e), sh.v2out[id]))
 			case "run":
 				sc, ok := sh.loaded[op.Set][op.Name]
 				if !ok {
@@ -305,9 +359,12 @@ func (Prop) Run(p *core.Plan) *core.Result {
 	if !raceBuild {
 		return &core.Result{Infra: "C16 must be built with -race"}
 	}
-	savedLocal := time.Local
-	time.Local = time.UTC
-	defer func() { time.Local = savedLocal }()
+	// time.Local is never assigned in the race build: a library ticker (glog's flush daemon,
+	// pulled in by the obfuscator) reads it from timer context and the detector would report
+	// the harness's own write. The check exports TZ=UTC instead.
+	if name, off := time.Now().Zone(); off != 0 {
+		return &core.Result{Infra: "C16 needs TZ=UTC in the environment, local zone is " + name}
+	}
 	var w Workload
 	if err := p.GetWorkload(&w); err != nil {
 		return &core.Result{Infra: "bad workload: " + err.Error()}
@@ -328,6 +385,7 @@ func (Prop) Run(p *core.Plan) *core.Result {
 		sh.loaded = append(sh.loaded, okM)
 		sh.lerrs = append(sh.lerrs, errM)
 	}
+	sh.loadV2(len(w.Tasks))
 	astBefore := make([]uint64, len(sh.loaded))
 	for i, m := range sh.loaded {
 		for _, n := range sortedNames(w.Sets[i]) {
@@ -341,6 +399,7 @@ func (Prop) Run(p *core.Plan) *core.Result {
 	// touched by the concurrent phase, so anything installed lazily at first use
 	// is installed while tasks interleave
 	shSolo := &shared{w: &w, base: world.BaseTime, calls: sh.calls, checks: sh.checks}
+	shSolo.loadV2(len(w.Tasks))
 	for _, set := range w.Sets {
 		src := map[string]string{}
 		for k, v := range set {
@@ -457,6 +516,9 @@ func (Prop) Run(p *core.Plan) *core.Result {
 		res.Probes["plans_with_one_script_run_by_several_tasks"]++
 	}
 	res.NonTrivial = switches > 0 && (sharedRun || parsers >= 2)
+	if len(world.SwitchLog) > 1 {
+		res.Sets = map[string][]uint64{"interleavings": {core.Hash(fmt.Sprint(world.SwitchLog))}}
+	}
 	res.Sig = core.Hash(string(p.Workload), world.Digest)
 	res.Sample = map[string]interface{}{"tasks": w.Tasks, "switches": switches}
 	return res
